@@ -24,6 +24,13 @@ pub mod generic_array {
         #[verifier::external_body]
         pub fn to_vec(&self) -> (r: Vec<u8>) ensures r@ == self@, self@.len() == N::n() { unimplemented!() }
     }
+    impl<'a> From<&'a mut [u8; 24]> for &'a mut GenericArray<U24> {
+        #[verifier::external_body]
+        fn from(a: &'a mut [u8; 24]) -> (r: &'a mut GenericArray<U24>) ensures r@ == old(a)@, final(a)@ == final(r)@ { unimplemented!() }
+    }
+    impl<'a> vstd::std_specs::convert::FromSpecImpl<&'a mut [u8; 24]> for &'a mut GenericArray<U24> {
+        open spec fn obeys_from_spec() -> bool { false } uninterp spec fn from_spec(v: &'a mut [u8; 24]) -> Self;
+    }
     impl<N: ArrayLength> core::ops::Deref for GenericArray<N> {
         type Target = [u8];
         #[verifier::external_body]
@@ -56,6 +63,25 @@ pub mod digest {
     pub trait FixedOutput: MacState {
         type N: ArrayLength;
         fn finalize_fixed(self) -> (r: GenericArray<Self::N>) ensures r@ == Self::mout(self.mkey(), self.mbuf());
+        fn finalize_into(self, out: &mut GenericArray<Self::N>) ensures final(out)@ == Self::mout(self.mkey(), self.mbuf());
+    }
+    // digest::Mac (new_from_slice / update / finalize), as used by hmac and by v2.local's keyed BLAKE2b
+    pub trait Mac: MacState {
+        type N: ArrayLength;
+        fn new_from_slice(key: &[u8]) -> (r: Result<Self, InvalidLength>)
+            ensures Self::key_ok(key@.len()) <==> r is Ok,
+                    r is Ok ==> r->Ok_0.mkey() == key@ && r->Ok_0.mbuf() == Seq::<u8>::empty();
+        fn update(&mut self, data: &[u8])
+            ensures final(self).mkey() == old(self).mkey(), final(self).mbuf() == old(self).mbuf() + data@;
+        fn finalize(self) -> (r: CtOutput<Self::N>) ensures r@ == Self::mout(self.mkey(), self.mbuf());
+    }
+    #[verifier::external_body]
+    #[verifier::reject_recursive_types(N)]
+    pub struct CtOutput<N: ArrayLength> { _n: core::marker::PhantomData<N> }
+    impl<N: ArrayLength> View for CtOutput<N> { type V = Seq<u8>; uninterp spec fn view(&self) -> Seq<u8>; }
+    impl<N: ArrayLength> CtOutput<N> {
+        #[verifier::external_body]
+        pub fn into_bytes(self) -> (r: GenericArray<N>) ensures r@ == self@ { unimplemented!() }
     }
     }
 }
@@ -90,6 +116,54 @@ pub mod blake2 {
         type N = N;
         #[verifier::external_body]
         fn finalize_fixed(self) -> (r: GenericArray<N>) { unimplemented!() }
+        #[verifier::external_body]
+        fn finalize_into(self, out: &mut GenericArray<N>) { unimplemented!() }
+    }
+    impl<N: ArrayLength> digest::Mac for Blake2bMac<N> {
+        type N = N;
+        #[verifier::external_body]
+        fn new_from_slice(key: &[u8]) -> (r: Result<Self, digest::InvalidLength>) { unimplemented!() }
+        #[verifier::external_body]
+        fn update(&mut self, data: &[u8]) { unimplemented!() }
+        #[verifier::external_body]
+        fn finalize(self) -> (r: digest::CtOutput<N>) { unimplemented!() }
+    }
+    }
+}
+
+pub mod sha2 {
+    use vstd::prelude::*;
+    verus!{
+    pub struct Sha384;
+    }
+}
+pub mod hmac {
+    use vstd::prelude::*;
+    use crate::generic_array::*;
+    use crate::cryptospec::*;
+    pub use crate::digest::Mac;
+    verus!{
+    #[verifier::external_body]
+    #[verifier::reject_recursive_types(D)]
+    pub struct Hmac<D> { _d: core::marker::PhantomData<D> }
+    impl<D> Hmac<D> {
+        pub uninterp spec fn key(&self) -> Seq<u8>;
+        pub uninterp spec fn buf(&self) -> Seq<u8>;
+    }
+    impl crate::digest::MacState for Hmac<crate::sha2::Sha384> {
+        open spec fn mkey(&self) -> Seq<u8> { self.key() }
+        open spec fn mbuf(&self) -> Seq<u8> { self.buf() }
+        open spec fn mout(key: Seq<u8>, buf: Seq<u8>) -> Seq<u8> { hmac_sha384(key, buf) }
+        open spec fn key_ok(n: nat) -> bool { true }
+    }
+    impl crate::digest::Mac for Hmac<crate::sha2::Sha384> {
+        type N = U48;
+        #[verifier::external_body]
+        fn new_from_slice(key: &[u8]) -> (r: Result<Self, crate::digest::InvalidLength>) { unimplemented!() }
+        #[verifier::external_body]
+        fn update(&mut self, data: &[u8]) { unimplemented!() }
+        #[verifier::external_body]
+        fn finalize(self) -> (r: crate::digest::CtOutput<U48>) { unimplemented!() }
     }
     }
 }
